@@ -332,10 +332,29 @@ def link_status_enum(repo):
 
 
 def _curve_fit_stub(f, xdata, ydata, p0=None, *a, **k):
-    """scipy.optimize.curve_fit is NOT modelled: the stand-in hands back the start values (the 3-and-more-point regression is not analysed;
-    its result only serves as `some coefficients that depend on the points` for the memo scenarios)."""
+    """scipy.optimize.curve_fit is NOT modelled in general: for more than three points the stand-in hands back the start values (the regression is not
+    analysed; its result only serves as `some coefficients that depend on the points` for the memo scenarios).  For exactly three points with distinct,
+    increasing flows the least-squares solution of H = a - b*Q^c is the exact interpolant, which the stand-in computes itself (one-dimensional bisection
+    on c), so that `the coefficients of a 3-point curve reproduce its points` can be decided on fixtures."""
     if p0 is None:
         raise Unsupported("curve_fit without start values")
+    xs, ys = [float(x) for x in xdata], [float(y) for y in ydata]
+    if len(xs) == 3 and 0.0 <= xs[0] < xs[1] < xs[2] and ys[0] > ys[1] > ys[2]:
+        target = (ys[0] - ys[1]) / (ys[0] - ys[2])
+
+        def ratio(c):
+            return (xs[1] ** c - xs[0] ** c) / (xs[2] ** c - xs[0] ** c)
+        lo, hi = 1e-9, 60.0
+        if ratio(lo) > target > ratio(hi):
+            for _ in range(200):
+                mid = 0.5 * (lo + hi)
+                if ratio(mid) > target:
+                    lo = mid
+                else:
+                    hi = mid
+            c = 0.5 * (lo + hi)
+            b = (ys[0] - ys[1]) / (xs[1] ** c - xs[0] ** c)
+            return [ys[0] + b * xs[0] ** c, b, c], None
     return list(p0), None
 
 
@@ -703,7 +722,7 @@ def run(repo, chk):
                    expected=str(want), found=str(R))
     # get_head_curve_coefficients: the method is RUN (sa/concrete.py) on pumps of the repository's own HeadPump / Curve classes; the 1- and
     # 2-point fits are decided on sample curves (the formulas are rational in the points: generic samples, rel. tolerance 1e-9); the
-    # 3-and-more-point regression (scipy curve_fit) is NOT analysed
+    # the regression on MORE than three points (scipy curve_fit) is NOT analysed; 3-point curves are, see below
     gfn = repo.func(ELEM, "HeadPump.get_head_curve_coefficients")
     chk.fn(gfn)
     TOL = 1e-9
@@ -749,6 +768,24 @@ def run(repo, chk):
                    "the fitted curve must reproduce the points it was fitted to", expected="A - B*Q%d^C = H%d" % (i, i), found=fails["p%d" % i][:3])
     chk.expect(seen == {1, 2}, "R-C02-5", "1- and 2-point pump-curve formulas located", loc(gfn), "the fit of a 1-point and of a 2-point curve must return coefficients",
                found=sorted(seen))
+    # 3-point curves: H = A - B Q^C has three parameters, so the fit must reproduce all three points -- also when the first point is NOT at zero flow (the closed-form
+    # start values A0 = H0, C0, B0 assume it is).  scipy's curve_fit is replaced by a stand-in that returns the exact interpolant (see _curve_fit_stub); whatever the
+    # function does with it (or instead of it), the coefficients it reports are checked against the points.  Regressions on more than three points: not analysed.
+    three_pt = [[(0.0, 40.0), (0.1, 35.0), (0.2, 20.0)], [(0.05, 57.37), (0.1, 50.0), (0.2, 25.0)], [(0.02, 80.0), (0.06, 71.0), (0.11, 40.5)], [(0.5, 12.0), (1.0, 9.0), (2.0, 1.5)]]
+    fails3 = []
+    for pts in three_pt:
+        got, err = fresh_fit(repo, pts)
+        if err is not None:
+            fails3.append("%s: %s" % (pts, err))
+            continue
+        a_, b_, c_ = got
+        for i, (qi, hi) in enumerate(pts):
+            hfit = a_ - b_ * qi ** c_ if qi > 0 else a_
+            if not abs(hfit - hi) <= 1e-6 * pts[0][1]:
+                fails3.append("points %s: A=%r, B=%r, C=%r; H(Q%d)=%r instead of %r" % (pts, a_, b_, c_, i, hfit, hi))
+                break
+    chk.expect(not fails3, "R-C02-5", "3-point pump curve H = A - B Q^C passes through its three points (first point at zero flow or not)", loc(gfn),
+               "three parameters, three points: the fitted curve must reproduce the points; the closed-form start values take A = H0, which is only right when Q0 = 0", found=fails3[:3])
     # R-C02-5c: the coefficients a pump reports belong to its curve's CURRENT points, whatever was computed before: each scenario computes the
     # coefficients once (so that anything memoised is in place), changes the curve the way the API allows, and compares the coefficients
     # reported afterwards with those of a NEW pump on a NEW curve with the same points (differential, exact equality)
@@ -822,7 +859,7 @@ def run(repo, chk):
                         memo_scenario(M1, other_curve, other=M2)) if r]
     chk.expect(not bad_, "R-C02-5", "assigning another curve to the pump (pump_curve_name setter) drops the memoised coefficients", loc(psetter),
                expected="coefficients of the newly assigned curve", found=bad_[:3])
-    chk.floor("R-C02-5", 8 + 4 + 6 + 2)
+    chk.floor("R-C02-5", 8 + 4 + 6 + 2 + 1)
 
     # ---------------------------------------------------------------- R-C02-6 valves
     # the registered relation is compared AS A FUNCTION of the flow: for q > 0 and for q < 0 the branch in force (first guard that holds) must equal
@@ -952,6 +989,7 @@ def run(repo, chk):
 
 _W = lambda name, old, new, rule, **kw: dict(name=name, file=CON, old=old, new=new, rule=rule, **kw)
 WITNESSES = [
+    dict(name="three-point-curve-keeps-the-start-values", file=ELEM, old="                    coeff, cov = curve_fit(flow_vs_head_func, Q, H, [A0, B0, C0])\n", new="                    coeff = [A0, B0, C0]\n", rule="R-C02-5"),
     dict(name="head-pump-ignores-reverse-flow", file=CTRL, old="        if self._pump.flow is not None and self._pump.flow < -2.83168e-6:\n            return True\n", new="", rule="R-C02-8"),
     dict(name="pump-memo-key-aliases-live-list", file=ELEM, old="            self._coeffs_curve_points = list(curve.points)", new="            self._coeffs_curve_points = curve.points", rule="R-C02-5"),
     dict(name="stale-pump-curve-memo", file=ELEM, old="if self._curve_coeffs is None or curve.points != self._coeffs_curve_points:", new="if self._curve_coeffs is None:", rule="R-C02-5"),
